@@ -8,9 +8,35 @@ GEN = ["curves"]
 LEAN = ["Ymq.Props.C15"]
 AUDIT = "Ymq.Audit.C15"
 THEOREMS = [
-    "Ymq.C15.chain_eval", "Ymq.C15.chain_eval_len33_witness", "Ymq.C15.chain_cap32_witness",
-    "Ymq.C15.chain_interp_spec", "Ymq.C15.chainmul_spec", "Ymq.C15.dbladd_spec", "Ymq.C15.chainmul_eq_dbladd",
-    "Ymq.C15.mul128_spec", "Ymq.C15.mul128_zero_witness", "Ymq.C15.chainmul1024_spec_of_chain",
+    "Ymq.C15.chain_eval",
+    "Ymq.C15.chain_eval_len33_witness",
+    "Ymq.C15.chain_cap32_witness",
+    "Ymq.C15.chain_interp_spec",
+    "Ymq.C15.chainmul_spec",
+    "Ymq.C15.dbladd_spec",
+    "Ymq.C15.chainmul_eq_dbladd",
+    "Ymq.C15.mul128_spec",
+    "Ymq.C15.mul128_zero_witness",
+    "Ymq.C15.chainmul1024_spec_of_chain",
+    "Ymq.C15.add_closed",
+    "Ymq.C15.double_closed",
+    "Ymq.C15.dblext_closed",
+    "Ymq.C15.to_extended_closed",
+    "Ymq.C15.addext_closed",
+    "Ymq.C15.addextproj_closed",
+    "Ymq.C15.subextproj_neg",
+    "Ymq.C15.subextproj_closed",
+    "Ymq.C15.add_self_double",
+    "Ymq.C15.dblext_double",
+    "Ymq.C15.addext_add",
+    "Ymq.C15.e128_eq_ecm",
+    "Ymq.C15.e128_dbladd_spec",
+    "Ymq.C15.e128_is_valid_of_curve",
+    "Ymq.C15.suyama_double_on_curve",
+    "Ymq.C15.suyama_add_g_on_curve",
+    "Ymq.C15.suyama_generator_on_curve",
+    "Ymq.C15.params_point_on_curve",
+    "Ymq.C15.from_point_on_curve",
 ]
 PROFILES = ["release", "chk"]
 TIMEOUT = 30.0
